@@ -26,11 +26,16 @@ from twisted.internet.defer import (
     Deferred,
     ensureDeferred,
     inlineCallbacks,
+    returnValue,
 )
 from twisted.python.failure import Failure
 
 HEADLINE = "TwistedProps.C05.inline_matches_sync"
-RULE = ("random structured programs (seq/try-except/try-finally/loops/return/raise/if/plain yields/nested calls through "
+RULE = ("[after the white-box mutation audit: + returnValue() in generators; + a value that travels as None (fired, yielded, "
+        "returned); + awaited objects of a sub-subclass of Deferred; + 1-3 callbacks on the returned Deferred; + long runs "
+        "(150-400 Deferreds that have fired already, consumed without giving control back); + nested functions that survive "
+        "2-4 cancellations; + triple cancels]  "
+        "random structured programs (seq/try-except/try-finally/loops/return/raise/if/plain yields/nested calls through "
         "decorated functions, bare generator and coroutine objects, ensureDeferred, fromCoroutine, `yield from`/direct await; "
         "raise/except of a BaseException that is not an Exception; depth <= 4, <= 10 awaited Deferreds), each compiled as "
         "@inlineCallbacks generator AND as coroutine; every awaited Deferred pre-fired or fired later (any order) with a value "
@@ -47,7 +52,13 @@ ASSUMES = [
     "inlineCallbacks generator — `yield` is documented as 'roughly maybeDeferred' — and is outside the statement's 'plain values')",
     "cancel() of the returned Deferred comes from outside the function (not re-entrantly from its own body or from a canceller)",
     "cancellers of awaited Deferreds return normally (C03 covers raising cancellers)",
-    "the deprecated returnValue() and contextvars propagation are not exercised",
+    "returnValue() (deprecated) is exercised where it means `return`: not inside the function's own `except BaseException` and "
+    "not in a generator delegated to with `yield from` (there it ends the delegating function, by design); contextvars "
+    "propagation is not exercised",
+    "values other than ints: only None (case flag `nil`: one int of the case is represented by None on every Deferred, plain "
+    "yield and return; the compiled function maps it back when it receives it, so the model sees the int)",
+    "the callbacks an application adds to the RETURNED Deferred after the observer (flag `nobs`) replace the result; only their "
+    "being run once, after the observer, is checked",
     "hypothesis boundary probed by hand on the real code, outside the statement: re-awaiting one Deferred gives (5, None) in "
     "a generator and (5, 5) in a coroutine (a Deferred's result is consumed by callbacks); re-entrant cancel() is harmless",
 ]
@@ -60,6 +71,9 @@ TRUSTED = [
     "_DEFERRED_SUBCLASSES / paused-and-chained): the model line does not carry that kind, the tie expects the same line for all; "
     "after gen.send() Deferred.__await__ re-reads self.result — the model hands the coroutine the outcome directly",
     "harness/corr/C05.py compiler from the mini language to Python source",
+    "realisation choices invisible to the model (the tie expects the same line whatever they are): `dk` (class of the awaited "
+    "object), `dbg` (Deferred debugging on), `nil` (an int travelling as None), `nobs` (further callbacks on the returned Deferred), `rv` (returnValue(v) for "
+    "`return v`): the theorems say nothing about them, the tie and the oracle run the real code with them",
 ]
 MANIFEST = {
     "text": "Lean theorems (TwistedProps/C05.lean), for every program of the mini generator language, every canceller "
@@ -70,7 +84,10 @@ MANIFEST = {
             "its canceller chose (CancelledError if none) and the first thing the function logs is that outcome at the await it "
             "was suspended at. All of it for generator and coroutine functions (Deferred.__await__'s already-fired shortcut is a "
             "model object), for results of every failure class (Failure, Failure subclass, bare exception, Failure via callback: "
-            "fired_result_observed_by_isinstance) and for BaseException-derived exceptions. PARTIAL: Python generator semantics and the replacement-Deferred chain are transcriptions/abstractions "
+            "fired_result_observed_by_isinstance) and for BaseException-derived exceptions. The theorems have no size bound; the tie "
+            "now also runs long programs (hundreds of already-fired Deferreds in one go), None values, returnValue(), sub-subclasses of "
+            "Deferred, several callbacks on the returned Deferred and nested functions cancelled up to 4 times (white-box mutation "
+            "audit, harness/mutants/C05/README.md). PARTIAL: Python generator semantics and the replacement-Deferred chain are transcriptions/abstractions "
             "tied by differential runs of compiled programs (generator and coroutine) against the real defer.py.",
     "note": "trusts Lean kernel, my CPS transcription of Python generator semantics, the activation-stack abstraction of nested "
             "inlineCallbacks Deferreds, the program compiler in harness/corr/C05.py",
@@ -87,8 +104,15 @@ MANIFEST = {
 # fire outcome: ["v",n] | ["u",n,C] | ["b",n,C]  (UserError / UserBase)   C = "p" errback(Failure) · "s" errback(SubFailure) ·
 #               "r" errback(exception) · "k" callback(Failure)           (missing C = "p")
 # canceller spec: ["n"] | ["z"] | ["o",v] | ["e",n,C,"u"|"b"]            (legacy ["e",n] = ["e",n,"r","u"])
-# case["dk"][i]: how awaited Deferred i is realised: "" Deferred · "S" SubDeferred · "C" fired, paused on the Deferred the
-#               schedule fires · "SC" both
+# case["dk"][i]: how awaited Deferred i is realised: "" Deferred · "S" SubDeferred · "T" SubSubDeferred (a subclass of a
+#               subclass) · "C" fired, paused on the Deferred the schedule fires · "SC"/"TC" both
+# ["rv",E]    : the deprecated `returnValue(E)` in a generator, `return E` in a coroutine and in the synchronous twin; the model
+#               line says `r<E>` (same meaning wherever the generator puts it: see _sanitize)
+# case["nil"] : int n — the value n is REPRESENTED BY `None` wherever it crosses the Twisted code (callback(None), `yield None`,
+#               `return None`); the function maps it back on receipt, so the model line is unchanged
+# case["dbg"] : run under defer.setDebugging(True)
+# case["nobs"]: number of callbacks on the returned Deferred (default 1): the first one is the property's observer, the later
+#               ones are an application's further callbacks, which replace the result by an object of their own
 
 class UserError(Exception):
     def __init__(self, n):
@@ -112,6 +136,14 @@ class SubFailure(Failure):
 
 class SubDeferred(Deferred):
     """application subclass of Deferred (like DeferredList); registered in defer._DEFERRED_SUBCLASSES by __init_subclass__"""
+
+
+class SubSubDeferred(SubDeferred):
+    """subclass of a subclass (registered through the inherited __init_subclass__)"""
+
+
+class _Later:
+    """what a later callback of the returned Deferred turns the result into"""
 
 
 class _Blocked(BaseException):
@@ -142,6 +174,8 @@ def enc_prog(p):
             out.append(t)
         elif t in ("y", "s", "r"):
             out.append(t + _enc_expr(s[1]))
+        elif t == "rv":
+            out.append("r" + _enc_expr(s[1]))
         elif t in ("m", "e", "eb"):
             out.append("%s%d" % (t, s[1]))
         elif t == "q":
@@ -217,7 +251,7 @@ class _Compiler:
                     self.lines.append("    if False: yield None")
                 self.depth = 0
                 self.stmt(body, kind, 1)
-                self.lines.append("    return acc")
+                self.lines.append("    return nilv(acc)")
             self.lines.append("f%d_deco = inlineCallbacks(f%d_gen)" % (idx, idx))
         return "\n".join(self.lines) + "\n"
 
@@ -227,7 +261,7 @@ class _Compiler:
     def observed(self, ind, target, expr, tag):
         """`target = <expr>` with the outcome logged inside the function"""
         self.emit(ind, "try:")
-        self.emit(ind + 1, "_r = " + expr)
+        self.emit(ind + 1, "_r = unnil((%s))" % expr)
         self.emit(ind, "except BaseException as _e:")
         self.emit(ind + 1, "logexc(%r, _e)" % tag)
         self.emit(ind + 1, "raise")
@@ -244,8 +278,8 @@ class _Compiler:
             self.observed(ind, "acc", expr, "a")
         elif t == "y":
             e = _py_expr(s[1])
-            expr = {"gen": "yield " + e, "coro": "await Plain(%s)" % e, "sync": e}[kind]
-            self.emit(ind, "acc = " + ("(%s)" % expr if kind == "gen" else expr))
+            expr = {"gen": "unnil((yield nilv(%s)))" % e, "coro": "unnil(await Plain(nilv(%s)))" % e, "sync": e}[kind]
+            self.emit(ind, "acc = " + expr)
             self.emit(ind, "logval('p', acc)")
         elif t == "s":
             self.emit(ind, "acc = " + _py_expr(s[1]))
@@ -278,7 +312,9 @@ class _Compiler:
             self.emit(ind, "for _i%d in range(%d):" % (self.depth, s[1]))
             self.stmt(s[2], kind, ind + 1)
         elif t == "r":
-            self.emit(ind, "return " + _py_expr(s[1]))
+            self.emit(ind, "return nilv(%s)" % _py_expr(s[1]))
+        elif t == "rv":
+            self.emit(ind, ("returnValue(nilv(%s))" if kind == "gen" else "return nilv(%s)") % _py_expr(s[1]))
         elif t == "e":
             self.emit(ind, "raise UserError(%d)" % s[1])
         elif t == "eb":
@@ -425,6 +461,8 @@ class _Run:
         self.finals = []
         self.cancel_reports = []  # per cancel event: dict(waiting, awaited, before, after, log_before)
         self.frozen = None       # the observable line, fixed when the schedule is over
+        self.nil = case.get("nil")          # the int that travels as None (or None: no such value)
+        self.later_calls = [0] * (max(1, case.get("nobs", 1)) - 1)   # calls of the later callbacks on the returned Deferred
         self.done = False        # set when the schedule is over: what abandoned generators do while being
                                  # finalised (GeneratorExit runs their `finally` clauses) is not an observation
 
@@ -435,6 +473,17 @@ class _Run:
         tok = "%s:%s" % entry if not isinstance(entry[1], int) else "%s:%d" % entry
         self.log.append(tok)
         self.tl.append(tok)
+
+    def _nilv(self, v):
+        """into Twisted: the case's `nil` value travels as None"""
+        return None if (self.nil is not None and type(v) is int and v == self.nil) else v
+
+    def _unnil(self, v):
+        """out of Twisted: None stands for the case's `nil` value (without one, None is foreign and reported as such)"""
+        return self.nil if (v is None and self.nil is not None) else v
+
+    def _tok_result(self, r):
+        return tok_exc(r.value) if isinstance(r, Failure) else tok_value(self._unnil(r))
 
     def _logval(self, tag, v):
         if tag == "p":
@@ -466,10 +515,10 @@ class _Run:
         if spec[0] == "z":
             canc = lambda d: None
         elif spec[0] == "o":
-            canc = lambda d, v=spec[1]: d.callback(v)
+            canc = lambda d, v=spec[1]: d.callback(self._nilv(v))
         elif spec[0] == "e":
             canc = lambda d, n=spec[1], c=spec[2], k=spec[3]: _deliver(d, k, n, c)
-        klass = SubDeferred if "S" in dk else Deferred
+        klass = SubSubDeferred if "T" in dk else SubDeferred if "S" in dk else Deferred
         if "C" in dk:
             # the awaited Deferred HAS fired but is paused: its callback returned `gate`, which the schedule fires and
             # which owns the canceller (Deferred.cancel forwards to it)
@@ -493,7 +542,7 @@ class _Run:
 
         def rec(r):
             if self.outcomes[i] is None and not self.done:
-                self.outcomes[i] = tok_result(r)
+                self.outcomes[i] = self._tok_result(r)
             return r
 
         d.addBoth(rec)
@@ -512,13 +561,23 @@ class _Run:
         self.tl.append("F%d" % i)
         try:
             if o[0] == "v":
-                self.gates[i].callback(o[1])
+                self.gates[i].callback(self._nilv(o[1]))
             else:
                 _deliver(self.gates[i], o[0], o[1], _cls(o))
         except AlreadyCalledError:
             self.tl.append("!A")
 
     def execute(self, kind):
+        if not self.case.get("dbg"):
+            return self._execute(kind)
+        from twisted.internet import defer
+        defer.setDebugging(True)          # global mode: creation/invocation stacks are recorded, nothing else may change
+        try:
+            return self._execute(kind)
+        finally:
+            defer.setDebugging(False)
+
+    def _execute(self, kind):
         case = self.case
         code, _ = _compiled(case["prog"])
         for _ in case["specs"]:
@@ -527,6 +586,7 @@ class _Run:
             "inlineCallbacks": inlineCallbacks, "ensureDeferred": ensureDeferred, "Deferred": Deferred,
             "UserError": UserError, "UserBase": UserBase, "CancelledError": CancelledError, "Plain": _Plain,
             "nextD": self._next_d, "log": self._log, "logval": self._logval, "logexc": self._logexc, "code": self._code,
+            "nilv": self._nilv, "unnil": self._unnil, "returnValue": returnValue,
         }
         exec(code, env)
         for e in case["pre"]:
@@ -539,10 +599,19 @@ class _Run:
             def obs(r):
                 if self.done:
                     return
-                self.finals.append(tok_result(r))
-                self.tl.append("R:" + tok_result(r))
+                self.finals.append(self._tok_result(r))
+                self.tl.append("R:" + self._tok_result(r))
+                return r
 
             d.addBoth(obs)
+
+            def later(r, k):
+                if not self.done:
+                    self.later_calls[k] += 1
+                return _Later()
+
+            for k in range(len(self.later_calls)):
+                d.addBoth(later, k)
             for e in case["post"]:
                 if e[0] == "x":
                     self.tl.append("X")
@@ -617,7 +686,8 @@ class _Run:
 
         env = {"inlineCallbacks": lambda f: f, "UserError": UserError, "UserBase": UserBase, "CancelledError": CancelledError,
                "take": take, "blocked": lambda: st["blocked"], "log": logtok, "logval": logval, "logexc": logexc,
-               "code": self._code, "Plain": _Plain, "ensureDeferred": None, "Deferred": None, "nextD": None}
+               "code": self._code, "Plain": _Plain, "ensureDeferred": None, "Deferred": None, "nextD": None,
+               "nilv": lambda v: v, "unnil": lambda v: v, "returnValue": None}
         exec(code, env)
         try:
             r = env["f0_sync"]()
@@ -680,7 +750,8 @@ def _watchdog(seconds):
             raise Hang()
 
         prev = signal.signal(signal.SIGVTALRM, onalarm)
-        signal.setitimer(signal.ITIMER_VIRTUAL, seconds)
+        # repeating: a program that catches the Hang (`except BaseException`) and spins again is interrupted again
+        signal.setitimer(signal.ITIMER_VIRTUAL, seconds, 0.05)
         try:
             yield
         finally:
@@ -728,6 +799,10 @@ def oracle(case, out):
     if run.finals != exp_finals:
         key = "fired-%d-times" % len(run.finals) if len(run.finals) != len(exp_finals) else "final-result-differs"
         return {"key": key, "detail": "returned Deferred delivered %s; synchronous twin gives %s" % (run.finals, exp_finals)}
+    # every later callback of the returned Deferred runs exactly when (and as often as) the first one does
+    if any(n != len(run.finals) for n in run.later_calls):
+        return {"key": "later-callbacks-not-run-once", "detail": "the returned Deferred delivered %s to its first callback; its later "
+                "callbacks ran %s times" % (run.finals, run.later_calls)}
     # (2) cancellation
     for rep in run.cancel_reports:
         delta = [b - a for a, b in zip(rep["before"] + [0] * len(rep["after"]), rep["after"])]
@@ -773,7 +848,7 @@ def _stmt(rng, depth, budget):
         if r < 0.82:
             return ["m", rng.randint(0, 9)]
         if r < 0.9:
-            return ["r", _expr(rng)]
+            return ["rv" if rng.random() < 0.4 else "r", _expr(rng)]
         if r < 0.95:
             return ["e", rng.randint(0, 9)]
         if r < 0.98:
@@ -793,12 +868,30 @@ def _stmt(rng, depth, budget):
     return ["c", rng.random() < 0.7, _stmt(rng, depth - 1, budget), rng.randint(0, 3)]
 
 
+def _sanitize(p, allowed=True):
+    """`returnValue(v)` raises a BaseException (_DefGen_Return) that `_inlineCallbacks` turns into the result: it means
+    `return v` unless the function itself catches BaseException around it, or the generator is not driven by
+    `_inlineCallbacks` but delegated to with `yield from` (then it ends the DELEGATING function — documented, warned
+    about, and not what `return` in the twin does).  There `rv` is replaced by `r`; everywhere else it stays."""
+    t = p[0]
+    if t == "rv":
+        return p if allowed else ["r", p[1]]
+    if t == "x":
+        return ["x", p[1], _sanitize(p[2], allowed and p[1] != "b"), _sanitize(p[3], allowed)]
+    if t == "c":
+        return p[:2] + [_sanitize(p[2], bool(p[1]))] + p[3:]
+    out = list(p)
+    for i in _KIDS.get(t, []):
+        out[i] = _sanitize(p[i], allowed)
+    return out
+
+
 def _program(rng):
     budget = [rng.choice([1, 2, 3, 4, 6, 10])]
     p = _stmt(rng, rng.choice([2, 3, 3, 4, 4]), budget)
     if budget[0] > 0 and rng.random() < 0.7:
         p = ["q", ["a"], p] if rng.random() < 0.5 else ["q", p, ["a"]]
-    return p
+    return _sanitize(p)
 
 
 def _spec(rng):
@@ -828,7 +921,7 @@ def _dkinds(rng, n):
     r = rng.random()
     if r < 0.35:
         return []
-    return [rng.choice(["", "", "S", "S", "C", "SC"]) for _ in range(n)]
+    return [rng.choice(["", "", "S", "T", "C", "SC", "TC"]) for _ in range(n)]
 
 
 def _schedule(rng, n):
@@ -876,6 +969,11 @@ def _with_cancels(rng, base, tier):
         c = dict(base)
         c["post"] = post[:j] + [["x"]] + post[j:k] + [["x"]] + post[k:]
         yield c
+        if rng.random() < 0.3:
+            m = rng.randint(k, len(post))
+            c = dict(base)
+            c["post"] = post[:j] + [["x"]] + post[j:k] + [["x"]] + post[k:m] + [["x"]] + post[m:]
+            yield c
 
 
 def corpus():
@@ -939,25 +1037,127 @@ def corpus():
             {"kind": kind, "prog": ["f", ["c", False, three, 0], ["eb", 1]], "specs": [], "pre": [["f", 1, ["u", 0, "s"]]],
              "post": [["f", 0, ["u", 5, "k"]], ["f", 2, ["v", 1]]]},
         ]
+        # ---- classes added by the white-box mutation audit (harness/mutants/C05)
+        out += [
+            # None as a value: a Deferred that has ALREADY fired with None / fires with None later / a canceller that fires
+            # None; None as plain yielded value and as the function's return value (here value 5 travels as None)
+            {"kind": kind, "prog": seq(A, ["y", ["A"]], A, A, ["r", ["A"]]), "specs": [["n"], ["n"], ["o", 5]], "nil": 5,
+             "pre": [["f", 0, ["v", 5]]], "post": [["f", 1, ["v", 5]], ["x"]]},
+            {"kind": kind, "prog": seq(["c", True, seq(A, ["rv", ["A"]]), 0], ["c", True, seq(A, ["r", ["A"]]), 2], ["c", False, A, 0]),
+             "specs": [], "nil": 0, "pre": [["f", 0, ["v", 0]], ["f", 2, ["v", 0]]], "post": [["f", 1, ["v", 0]]]},
+            # the awaited object is an instance of a subclass of a subclass of Deferred
+            {"kind": kind, "prog": seq(A, ["x", "a", A, ["m", 1]], ["r", ["A"]]), "specs": [["n"], ["z"]], "dk": ["T", "TC"],
+             "pre": [["f", 0, ["v", 4]]], "post": [["x"], ["f", 1, ["v", 2]]]},
+            # the returned Deferred has further callbacks when it is cancelled (twice) and when it fires
+            {"kind": kind, "prog": seq(["x", "c", A, ["m", 1]], A, ["r", ["P", 2]]), "specs": [["n"], ["o", 3]], "nobs": 3,
+             "pre": [], "post": [["x"], ["x"]]},
+            # returnValue() right after a failure was thrown in and caught, after a value was sent, in a handler, under finally
+            {"kind": kind, "prog": seq(["x", "u", A, ["rv", ["L", 5]]], ["m", 1]), "specs": [], "pre": [], "post": [["f", 0, ["u", 1, "p"]]]},
+            {"kind": kind, "prog": ["f", seq(A, ["x", "a", A, ["rv", ["P", 1]]], ["rv", ["A"]]), ["m", 3]], "specs": [["n"], ["n"]],
+             "pre": [["f", 1, ["u", 2, "r"]]], "post": [["f", 0, ["v", 4]]]},
+            {"kind": kind, "prog": seq(["c", True, seq(["x", "c", A, ["rv", ["L", 8]]], ["rv", ["L", 9]]), 1], ["rv", ["P", 1]]),
+             "specs": [["n"]], "pre": [], "post": [["x"]]},
+            # a long run over Deferreds that have all fired: the driver must not recurse per Deferred
+            {"kind": kind, "prog": seq(["l", 400, A], ["r", ["A"]]), "specs": [], "pre": [["f", i, ["v", i % 10]] for i in range(400)], "post": []},
+            {"kind": kind, "prog": ["c", True, seq(["l", 300, ["c", True, ["x", "a", A, ["m", 1]], 0]], A, ["r", ["A"]]), 0], "specs": [],
+             "pre": [["f", i, ["u", 1, "s"] if i % 7 == 3 else ["v", 2]] for i in range(300)], "post": [["x"]]},
+            # outer waits on inner (two levels), the inner one survives two cancellations; third cancel ends it
+            {"kind": kind, "prog": seq(["c", True, seq(["c", True, seq(["x", "c", A, ["m", 1]], ["x", "c", A, ["m", 2]], A, ["r", ["L", 7]]), 0],
+                                                      ["r", ["P", 1]]), 2], ["r", ["P", 1]]),
+             "specs": [["n"], ["z"], ["n"]], "pre": [], "post": [["x"], ["x"], ["x"]]},
+        ]
     return out
+
+
+def _realise(rng, base, n):
+    """the realisation choices the model does not see: classes of the awaited objects, the value that travels as None,
+    further callbacks on the returned Deferred"""
+    dk = _dkinds(rng, n)
+    if any(dk):
+        base["dk"] = dk
+    if rng.random() < 0.4:
+        vals = [e[2][1] for e in base["pre"] + base["post"] if e[0] == "f" and e[2][0] == "v"]
+        vals += [sp[1] for sp in base["specs"] if sp[0] == "o"]
+        base["nil"] = rng.choice(vals) if vals and rng.random() < 0.8 else rng.randint(0, 9)
+    if rng.random() < 0.35:
+        base["nobs"] = rng.choice([2, 2, 3])
+    if rng.random() < 0.06 and len(base["pre"]) < 100:
+        base["dbg"] = 1
+    return base
+
+
+def _both_kinds(cases):
+    for c in cases:
+        yield c
+        c2 = dict(c)
+        c2["kind"] = "coro"
+        yield c2
+
+
+def _long_run(rng):
+    """a function that goes through HUNDREDS of Deferreds which have fired already without ever giving control back (what
+    the `while 1:` loop of _inlineCallbacks and its `waiting` flag exist for), optionally nested through a Deferred; the
+    last Deferreds may fire later"""
+    n = rng.choice([150, 260, 400])
+    body = rng.choice([
+        ["a"],
+        ["x", "a", ["a"], ["m", 1]],
+        ["q", ["a"], ["y", ["P", 1]]],
+        ["f", ["x", "b", ["a"], ["k"]], ["s", ["P", 1]]],
+        ["c", True, ["q", ["a"], ["rv", ["A"]]], rng.randint(0, 3)],
+    ])
+    prog = ["q", ["l", n, body], ["r", ["A"]]]
+    if rng.random() < 0.3:
+        prog = ["q", ["c", True, prog, rng.randint(0, 3)], ["m", 2]]
+    fires = [["f", i, _outcome(rng, 0.3 if body[0] in ("x", "f") else 0.0)] for i in range(n)]
+    if body[0] == "x":
+        fires = [["f", e[1], ["u"] + e[2][1:]] if e[2][0] == "b" else e for e in fires]      # only what the body catches
+    late = rng.choice([0, 0, 1, 3])
+    pre, post = fires[:n - late], fires[n - late:]
+    if rng.random() < 0.5:
+        rng.shuffle(pre)
+    return {"kind": "gen", "prog": prog, "specs": [], "pre": pre, "post": post}, n
+
+
+def _nested_cancel(rng):
+    """an outer function waits on the Deferred of an inner one (1-3 levels, any call style) that survives being cancelled
+    (it catches, or the canceller hands it a value) and waits again; nothing fires, the returned Deferred is cancelled
+    2-4 times"""
+    waits = rng.randint(2, 4)
+    inner = ["r", ["A"]]
+    for _ in range(waits):
+        w = ["x", rng.choice("acb"), ["a"], ["m", rng.randint(0, 9)]] if rng.random() < 0.7 else ["a"]
+        inner = ["q", w, inner]
+    prog = inner
+    for _ in range(rng.randint(1, 3)):
+        prog = ["q", ["c", rng.random() < 0.8, prog, rng.randint(0, 3)], ["rv" if rng.random() < 0.3 else "r", ["P", 1]]]
+        if rng.random() < 0.3:
+            prog = ["x", rng.choice("ac"), prog, ["a"]]
+    specs = [rng.choice([["n"], ["n"], ["z"], ["o", rng.randint(0, 9)], ["e", rng.randint(0, 9), _fcls(rng), "u"]]) for _ in range(waits + 1)]
+    post = [["x"]] * rng.randint(2, 4)
+    if rng.random() < 0.4:
+        post = post + [["f", waits - 1, _outcome(rng)]]
+        rng.shuffle(post)
+    return {"kind": "gen", "prog": _sanitize(prog), "specs": specs, "pre": [], "post": post}, waits + 1
 
 
 def generate(rng, tier):
     n_prog = 260 if tier == "quick" else 9000
-    for _ in range(n_prog):
+    for it in range(n_prog):
+        if it % (40 if tier == "quick" else 90) == 3:
+            # the special classes are interleaved with the random programs so that a run that is cut short has them too
+            for _ in range(2 if tier == "quick" else 1):
+                base, n = _long_run(rng)
+                yield from _both_kinds(_with_cancels(rng, _realise(rng, base, n if rng.random() < 0.3 else 0), "quick"))
+        if it % 6 == 1:
+            base, n = _nested_cancel(rng)
+            yield from _both_kinds([_realise(rng, base, n)])
         prog = _program(rng)
         n = rng.choice([0, 1, 2, 3, 4, 6, 10])
         specs = [_spec(rng) for _ in range(n)]
         pre, post = _schedule(rng, n)
-        base = {"kind": "gen", "prog": prog, "specs": specs, "pre": pre, "post": post}
-        dk = _dkinds(rng, n)
-        if any(dk):
-            base["dk"] = dk
-        for c in _with_cancels(rng, base, tier):
-            yield c
-            c2 = dict(c)
-            c2["kind"] = "coro"
-            yield c2
+        base = _realise(rng, {"kind": "gen", "prog": prog, "specs": specs, "pre": pre, "post": post}, n)
+        yield from _both_kinds(_with_cancels(rng, base, tier))
 
 
 # ----------------------------------------------------------------------------------------------
@@ -974,6 +1174,8 @@ def _kinds(p, acc):
         acc.add("x" + p[1])
     elif t == "eb":
         acc.add("E")
+    elif t == "rv":
+        acc.add("V")
     else:
         acc.add(t)
     for i in _KIDS.get(t, []):
@@ -993,8 +1195,24 @@ def tag(case, out):
         if sp[0] == "e":
             fc.add("x" + sp[2] + sp[3])
     dk = "".join(sorted(set("".join(case.get("dk") or []))))
-    return "%s|%s|pre%d|x%d|%s|%s|%s|%s" % (case.get("kind"), ks, min(len(case["pre"]), 3), hit, "end" if "R:" in out else "wait",
-                                            "A" if "!A" in out else "", ".".join(sorted(fc)), dk)
+    nil = case.get("nil")
+    nilseen = nil is not None and ("v%d" % nil) in out          # the value that travels as None occurred in the run
+    return "%s|%s|pre%d|x%d|%s|%s|%s|%s|%s%s%s" % (
+        case.get("kind"), ks, min(len(case["pre"]), 3) if len(case["pre"]) < 100 else 100, hit, "end" if "R:" in out else "wait", "A" if "!A" in out else "", ".".join(sorted(fc)), dk,
+        "N" if nilseen else "", "O" if case.get("nobs", 1) > 1 else "", "D" if case.get("dbg") else "")
+
+
+def _has_rv(p):
+    return p[0] == "rv" or any(_has_rv(p[i]) for i in _KIDS.get(p[0], []))
+
+
+def _strip_rv(p):
+    if p[0] == "rv":
+        return ["r", p[1]]
+    out = list(p)
+    for i in _KIDS.get(p[0], []):
+        out[i] = _strip_rv(p[i])
+    return out
 
 
 def _sub(p):
@@ -1009,6 +1227,8 @@ def _sub(p):
         for s in _sub(p[i]):
             yield p[:i] + [s] + p[i + 1:]
     if t == "l" and p[1] > 1:
+        if p[1] > 8:
+            yield ["l", p[1] // 2, p[2]]
         yield ["l", p[1] - 1, p[2]]
 
 
@@ -1021,7 +1241,14 @@ def shrink(case):
             c = dict(case); c[key] = evs[:i] + evs[i + 1:]
             yield c
     for p in _sub(case["prog"]):
-        c = dict(case); c["prog"] = p
+        c = dict(case); c["prog"] = _sanitize(p)
+        yield c
+    for key in ("nil", "nobs", "dbg"):
+        if key in case:
+            c = dict(case); del c[key]
+            yield c
+    if _has_rv(case["prog"]):
+        c = dict(case); c["prog"] = _strip_rv(case["prog"])
         yield c
     if case["specs"]:
         c = dict(case); c["specs"] = case["specs"][:-1]
@@ -1055,14 +1282,17 @@ def search(rng, tier, disagreeing):
         return          # the driver loops for ever on many cases: the witnesses found so far say it all
     for case in disagreeing[:5]:
         fires = [e for e in case["pre"] + case["post"] if e[0] == "f"]
+        if len(fires) > 12:
+            continue          # a long run: its schedule is the point, there is nothing to permute
         orders = list(itertools.permutations(fires)) if len(fires) <= 4 else [tuple(rng.sample(fires, len(fires))) for _ in range(24)]
         for order in orders:
             for npre in range(len(order) + 1):
                 pre, post = list(order[:npre]), list(order[npre:])
                 for kind in ("gen", "coro"):
                     base = {"kind": kind, "prog": case["prog"], "specs": case["specs"], "pre": pre, "post": post}
-                    if case.get("dk"):
-                        base["dk"] = case["dk"]
+                    for key in ("dk", "nil", "nobs", "dbg"):
+                        if key in case:
+                            base[key] = case[key]
                     yield base
                     for j in range(len(post) + 1):
                         c = dict(base); c["post"] = post[:j] + [["x"]] + post[j:]
